@@ -29,6 +29,7 @@ type Schedule struct {
 	Pol   map[string]int `json:"pol"`
 	Ver   map[string]int `json:"ver"`
 	Setup string         `json:"setup"`
+	Fam   string         `json:"fam,omitempty"`
 	Frag  map[string]int `json:"frag,omitempty"`
 	Seed  uint64         `json:"seed,omitempty"`
 	Steps []Step         `json:"steps"`
@@ -50,7 +51,11 @@ func newWorld(sc *Schedule, seed uint64, out *os.File) *world.World {
 			w.SetFragSize(w.P[n], z)
 		}
 	}
-	w.Init()
+	fam := sc.Fam
+	if fam == "" {
+		fam = "none"
+	}
+	w.InitFam(fam)
 	if sc.Setup == "ake" {
 		w.Handshake("A")
 	} else if sc.Setup == "akeB" {
@@ -104,6 +109,18 @@ func execStep(w *world.World, s Step) bool {
 			return false
 		}
 		w.Receive(p, p.Queue[0])
+	case "ReplayAny":
+		// re-deliver some earlier wire message addressed to p (index modulo their number)
+		var cand []*world.WireMsg
+		for _, wm := range w.Wire {
+			if wm.To == p.Name {
+				cand = append(cand, wm)
+			}
+		}
+		if len(cand) == 0 {
+			return false
+		}
+		w.Receive(p, cand[s.I%len(cand)])
 	case "Replay":
 		// re-deliver wire message number I (1-based) addressed to p
 		if s.I < 1 || s.I > len(w.Wire) || w.Wire[s.I-1].To != p.Name {
@@ -180,6 +197,7 @@ func cmdRun(args []string) int {
 		if *doDrain {
 			drain(w, 64)
 		}
+		w.Done()
 		w.Flush()
 		events += w.N
 		n++
@@ -191,14 +209,14 @@ func cmdRun(args []string) int {
 	return 0
 }
 
-// cmdRandom generates and executes seeded random schedules of a family.
-func cmdRandom(args []string) int {
-	fs := flag.NewFlagSet("random", flag.ExitOnError)
-	out := fs.String("out", "", "trace output")
+// cmdGen writes seeded random schedules of a family (they are executed by "run").
+func cmdGen(args []string) int {
+	fs := flag.NewFlagSet("gen", flag.ExitOnError)
+	out := fs.String("out", "", "schedule output (NDJSON)")
 	seed := fs.Uint64("seed", 1, "seed")
 	num := fs.Int("n", 10, "number of runs")
 	depth := fs.Int("depth", 40, "steps per run")
-	family := fs.String("family", "data", "data|life")
+	family := fs.String("family", "data", "data|life|bag")
 	fs.Parse(args)
 	of, err := os.Create(*out)
 	if err != nil {
@@ -206,71 +224,90 @@ func cmdRandom(args []string) int {
 		return 2
 	}
 	defer of.Close()
+	bw := bufio.NewWriter(of)
+	defer bw.Flush()
 	rng := rand.New(rand.NewSource(int64(*seed)))
-	events := 0
 	for i := 0; i < *num; i++ {
-		sc := &Schedule{Pol: map[string]int{}, Ver: map[string]int{}, Frag: map[string]int{}}
-		switch rng.Intn(3) {
-		case 0:
-			sc.Pol["A"], sc.Pol["B"] = 1, 1
-		case 1:
-			sc.Pol["A"], sc.Pol["B"] = 2, 3
-		default:
-			sc.Pol["A"], sc.Pol["B"] = 3, 3
-		}
-		if *family == "life" {
-			sc.Pol["A"] |= rng.Intn(16) << 2
-			sc.Pol["B"] |= rng.Intn(16) << 2
-		}
-		if rng.Intn(3) == 0 {
-			sc.Frag["A"] = []int{60, 100, 300, 1000}[rng.Intn(4)]
-		}
-		if rng.Intn(3) == 0 {
-			sc.Frag["B"] = []int{60, 100, 300, 1000}[rng.Intn(4)]
-		}
-		if *family == "data" {
-			sc.Setup = "ake"
-		}
-		w := newWorld(sc, *seed*1000003+uint64(i), of)
-		text := 0
-		for d := 0; d < *depth; d++ {
-			p := w.P[[]string{"A", "B"}[rng.Intn(2)]]
-			r := rng.Intn(100)
-			switch {
-			case r < 35:
-				text++
-				w.Send(p, text)
-			case r < 80:
-				w.Deliver(p)
-			case r < 85:
-				w.Tick(p)
-			case r < 88 && *family == "data":
-				w.ExtraKey(p, 7, []byte("u"))
-			case r < 92 && *family == "life":
-				w.Query(p)
-			case r < 96 && *family == "life":
-				w.End(p)
-			default:
-				w.Deliver(p)
-			}
-		}
-		drain(w, 200)
-		w.Flush()
-		events += w.N
-		if len(w.Panics) > 0 {
-			fmt.Printf("PANIC run=%d %s\n", i, w.Panics[0])
+		sc := genSchedule(rng, *family, *depth)
+		sc.ID = fmt.Sprintf("%s-%d-%d", *family, *seed, i)
+		sc.Seed = *seed*1000003 + uint64(i) + 1
+		b, _ := json.Marshal(sc)
+		bw.Write(b)
+		bw.WriteByte('\n')
+	}
+	return 0
+}
+
+func genSchedule(rng *rand.Rand, family string, depth int) *Schedule {
+	sc := &Schedule{Pol: map[string]int{}, Ver: map[string]int{}, Frag: map[string]int{}}
+	switch rng.Intn(3) {
+	case 0:
+		sc.Pol["A"], sc.Pol["B"] = 1, 1
+	case 1:
+		sc.Pol["A"], sc.Pol["B"] = 2, 3
+	default:
+		sc.Pol["A"], sc.Pol["B"] = 3, 3
+	}
+	if family == "life" {
+		sc.Pol["A"] |= rng.Intn(16) << 2
+		sc.Pol["B"] |= rng.Intn(16) << 2
+	}
+	if rng.Intn(3) == 0 {
+		sc.Frag["A"] = []int{60, 100, 300, 1000}[rng.Intn(4)]
+	}
+	if rng.Intn(3) == 0 {
+		sc.Frag["B"] = []int{60, 100, 300, 1000}[rng.Intn(4)]
+	}
+	sc.Fam = "none"
+	if family == "data" || family == "bag" {
+		sc.Setup = "ake"
+		if family == "data" {
+			sc.Fam = "fifo-data"
 		}
 	}
-	fmt.Printf("RUN schedules=%d events=%d\n", *num, events)
-	return 0
+	text := 0
+	ps := []string{"A", "B"}
+	for d := 0; d < depth; d++ {
+		p := ps[rng.Intn(2)]
+		r := rng.Intn(100)
+		switch {
+		case r < 35:
+			text++
+			sc.Steps = append(sc.Steps, Step{A: "Send", P: p, T: text})
+		case r < 80:
+			if family == "bag" && rng.Intn(3) == 0 {
+				switch rng.Intn(3) {
+				case 0:
+					sc.Steps = append(sc.Steps, Step{A: "Dup", P: p})
+				case 1:
+					sc.Steps = append(sc.Steps, Step{A: "DeliverAt", P: p, I: rng.Intn(3)})
+				default:
+					sc.Steps = append(sc.Steps, Step{A: "ReplayAny", P: p, I: rng.Intn(1000)})
+				}
+			} else {
+				sc.Steps = append(sc.Steps, Step{A: "Deliver", P: p})
+			}
+		case r < 85:
+			sc.Steps = append(sc.Steps, Step{A: "Tick", P: p})
+		case r < 88 && family != "life":
+			sc.Steps = append(sc.Steps, Step{A: "ExtraKey", P: p})
+		case r < 92 && family == "life":
+			sc.Steps = append(sc.Steps, Step{A: "Query", P: p})
+		case r < 96 && family == "life":
+			sc.Steps = append(sc.Steps, Step{A: "End", P: p})
+		default:
+			sc.Steps = append(sc.Steps, Step{A: "Deliver", P: p})
+		}
+	}
+	return sc
 }
 
 func run(cmd string, args []string) int {
 	switch cmd {
 	case "run":
 		return cmdRun(args)
-	case "random":
-		return cmdRandom(args)
+	case "gen":
+		return cmdGen(args)
 	}
 	fmt.Fprintln(os.Stderr, "unknown command", cmd)
 	return 2
